@@ -116,6 +116,20 @@ CLAIMED = {
              "to_dict/from_dict, five format mixins and the basic codec, comparing both the result and the recorded hook log (with the context object's identity).",
         note="Speculative __pre_deserialize__ calls of failing union candidates are allowed; speculative serialize hooks are not.",
         tech="TLA+ traversal spec as oracle for recorded hook traces (replay)", ref="6 C19"),
+    "C16": dict(
+        text="Quote.tla specifies Python's single-quoted literal lexing over code points; TLC proves ReprSafe (Repr(s) denotes s for every string of length <= 4 over an adversarial "
+             "10-character alphabet), RawSafeWhenPlain and RawSpliceRefuted (the deviant 'splice between quotes' emission), and emits one class per (position, string) for 9 positions "
+             "with the expected by-alias serialization and deserialization from the reference Pack/Unpack; each is built and executed for real, and a counter injected into builtins "
+             "detects any execution of payload strings.",
+        note="TLC's share is the generator, the lexing theorems and the oracle; the decisive evidence is the replay (DESIGN.md 6 C16).",
+        tech="TLA+ lexing theorems + exhaustive (position, string) enumeration replayed into the code with an execution sentinel", ref="6 C16"),
+    "C17": dict(
+        text="Nsp.tla models the namespaces generated code is exec'd into; TLC proves Closed and BoundByIdentity over all registration orders when every object gets its own name and refutes "
+             "them for first-wins (setdefault) naming with two classes sharing a qualified name. Env-guarded hooks record every binding (after setdefault) and every executed source text; "
+             "the recorder projects the global names / module-rooted attribute chains loaded on ALL paths of the generated functions, and TLC (NspTrace) steps the namespace machine along "
+             "these facts for every class of the grammar, random schemas and hand-written local / functional-API / same-named / MappingProxyType / local-dialect subjects.",
+        note="The projection from code objects is part of the trusted bridge; TLC judges a recorded fact base here (DESIGN.md 6 C17).",
+        tech="TLA+ namespace state machine; TLC validation of traces recorded through hooks", ref="6 C17"),
 }
 REASON_PENDING = "check not built yet in this round (construction order DESIGN.md 11); not claimed"
 
